@@ -74,7 +74,14 @@ let fields line =
     | None -> None) (String.split_on_char ' ' (String.trim line))
 let get fs k = try List.assoc k fs with Not_found -> failwith ("missing field " ^ k)
 let zlist s = List.map z_of_string (split_on ',' s)
-let natlist s = List.map (fun x -> nat_of_int (int_of_string x)) (split_on ',' s)
+let natlist s =
+  List.concat_map (fun x ->
+      match String.index_opt x 'x' with
+      | Some i ->
+        let t = nat_of_int (int_of_string (String.sub x 0 i)) in
+        let n = int_of_string (String.sub x (i + 1) (String.length x - i - 1)) in
+        List.init n (fun _ -> t)
+      | None -> [nat_of_int (int_of_string x)]) (split_on ',' s)
 
 let filf_of = function
   | ["F"; m; r] -> KeepMod (z_of_string m, z_of_string r)
